@@ -100,6 +100,7 @@ int main(int argc, char **argv) {
             vh_int("min", (long long)mn);
             vh_int("n", (long long)n);
             vh_int("k", released_in_call);
+            vh_int("busy", 0); /* single thread: no release call is ever in progress when an acquire call begins */
             vh_rc(rc);
             if (rc == 0) {
                 vh_int("off", (long long)(dest.buffer - ring.allocation));
